@@ -422,6 +422,33 @@ def check_degenerate(pi, axis_i, angle_i, extra):
     return None
 
 
+ROT_MENU = [[[1, 0, 0], [0, 1, 0], [0, 0, 1]], [[0, -1, 0], [1, 0, 0], [0, 0, 1]], [[0, 0, 1], [1, 0, 0], [0, 1, 0]],
+            [[2, 0, 0], [0, 1, 0], [0, 0, -1]], [[1, 1, 0], [0, 1, 0], [0, 0, 1]]]
+
+
+def check_affine_dtypes(ri, di, ti):
+    """a transformation built by hand from arrays of any numeric dtype (integer rotation matrices as in the documentation
+    example): apply() == 4x4 matrix form == R(x + c) + t computed in float64"""
+    import numpy as np
+    import biotite.structure as struc
+    rdt = [np.int64, np.int32, np.float32, np.float64][di]
+    R = np.array(ROT_MENU[ri], dtype=rdt)
+    c, t = [((0.0, 0.0, 0.0), (0.0, 0.0, 0.0)), ((0.5, -1.25, 2.75), (0.0, 0.0, 0.0)), ((0.0, 0.0, 0.0), (0.5, -1.25, 2.75)),
+            ((1, 2, 3), (-4, 5, 6)), ((0.25, 0.5, -0.75), (10.5, -0.125, 3.0))][ti]
+    tdt = np.int64 if all(float(v).is_integer() for v in c + t) and ti == 3 else np.float64
+    tr = struc.AffineTransformation(np.array(c, dtype=tdt), R, np.array(t, dtype=tdt))
+    X = np.array([[0.0, 0.0, 0.0], [1.0, 2.0, 3.0], [-1.5, 0.25, 4.0]])
+    want = (X + np.array(c, dtype=float)) @ np.array(ROT_MENU[ri], dtype=float).T + np.array(t, dtype=float)
+    got = np.asarray(tr.apply(X.astype(np.float32)), dtype=float)
+    if not np.allclose(got, want, atol=1e-4):
+        return f"apply() with rotation dtype {rdt.__name__}, translations {c} / {t}: {got.tolist()} vs {want.tolist()}"
+    M = np.asarray(tr.as_matrix(), dtype=float).reshape(4, 4)
+    hom = np.concatenate([X, np.ones((len(X), 1))], axis=1) @ M.T
+    if not np.allclose(hom[:, :3], want, atol=1e-4) or not np.allclose(M[3], [0, 0, 0, 1]):
+        return f"as_matrix() with rotation dtype {rdt.__name__}, translations {c} / {t}: gives {hom[:, :3].tolist()}, apply() {want.tolist()}"
+    return None
+
+
 def ob_degenerate(tier):
     p, a, g, e = z3.Ints("p a g e")
     npts = len(POINT_SETS)
@@ -438,5 +465,21 @@ def ob_degenerate(tier):
         except Exception as ex_:
             import traceback
             return False, f"{type(ex_).__name__}: {ex_} | {traceback.format_exc()[-300:]}"
+    r_, d_, t_ = z3.Ints("r d t")
+
+    def run2():
+        from vf.sx.core import cur
+        ex = cur()
+        return check_affine_dtypes(ex.choose(r_, range(len(ROT_MENU))), ex.choose(d_, range(4)), ex.choose(t_, range(5))) is None
+
+    def rep2(w):
+        try:
+            r = check_affine_dtypes(w["ri"], w["di"], w["ti"])
+            return r is None, str(r)
+        except Exception as ex_:
+            import traceback
+            return False, f"{type(ex_).__name__}: {ex_} | {traceback.format_exc()[-300:]}"
     return [Case("rigid copies of degenerate point sets", [p >= 0, p < npts, a >= 0, a < 5, g >= 0, g < 5, e >= 0, e <= 1], run,
-                 dict(pi=p, axis_i=a, angle_i=g, extra=e), rep)]
+                 dict(pi=p, axis_i=a, angle_i=g, extra=e), rep),
+            Case("hand-made transformations of any dtype", [r_ >= 0, r_ < len(ROT_MENU), d_ >= 0, d_ < 4, t_ >= 0, t_ < 5], run2,
+                 dict(ri=r_, di=d_, ti=t_), rep2)]
